@@ -118,9 +118,13 @@ def coq_check_props(prop_id, timeout=1200):
             continue
         elif block is not None:
             block = None
-    for name, ax in zip(res["theorems"], printed):
+    pa_names = re.findall(r"^\s*Print Assumptions\s+(\w+)\s*\.", src_nc, flags=re.M)
+    for name, ax in zip(pa_names, printed):
         res["assumptions"][name] = ax
-    res["ok"] = len(printed) >= len(res["theorems"]) and len(res["theorems"]) > 0
+    missing = [t for t in res["theorems"] if t not in pa_names]
+    res["ok"] = (len(printed) == len(pa_names) and not missing and len(res["theorems"]) > 0)
+    if missing:
+        res["log"] += f"\n[common] theorems without Print Assumptions: {missing}"
     if not res["ok"]:
         res["log"] += f"\n[common] {len(res['theorems'])} theorems but {len(printed)} Print Assumptions blocks"
     res["wall_s"] = time.time() - t0
@@ -319,6 +323,7 @@ def ulp_diff32(a_hex, b_hex):
 
 DRIVERS = {
     "driver": dict(name="driver", extract_v="theories/Extract/Extract.v", modname="model"),
+    "idriver": dict(name="idriver", extract_v="theories/Extract/ExtractInterval.v", modname="imodel"),
 }
 
 
